@@ -48,6 +48,14 @@ class Lib:
             while x.get('kind') in ('ImplicitCastExpr', 'ParenExpr') and x.get('inner'): x = x['inner'][0]
             if self.tr.category(P.ty(x)) == 'sstream':
                 a0 = x; t0 = P.ty(x); c0 = 'sstream'
+            else:
+                # a chain `ss << a << b`: the left operand is itself `ss << a` (which the model gives back as the buffer)
+                y = x; depth = 0
+                while y.get('kind') == 'CXXOperatorCallExpr' and len(y.get('inner', [])) >= 3 and depth < 64:
+                    y = y['inner'][1]; depth += 1
+                    while y.get('kind') in ('ImplicitCastExpr', 'ParenExpr') and y.get('inner'): y = y['inner'][0]
+                if depth and self.tr.category(P.ty(y)) == 'sstream':
+                    a0 = x; c0 = 'sstream'
         if c0 in ('ptr', 'carray', 'scalar') and op == '+' and len(args) == 2 and self.tr.category(P.ty(args[1])) in ('str', 'sv'):
             return 'str_concat(%s, %s)' % (self.as_sv(P, a0), self.as_sv(P, args[1]))
         if c0 in ('iter', 'ptr') or (c0 == 'sp' and op in ('==', '!=')):
